@@ -185,8 +185,21 @@ func (c *ATConn) createNewTxOnExecIfNeed(ctx context.Context, f func() (types.Ex
 		}
 	}()
 
+	if tx != nil {
+		// the implicit local transaction ends with this statement: the connection is in autocommit mode again
+		defer func() {
+			c.autoCommit = true
+		}()
+	}
+
 	ret, err := f()
 	if err != nil {
+		if tx != nil {
+			// do not hand the connection back inside the open local transaction
+			if rollbackErr := tx.Rollback(); rollbackErr != nil {
+				log.Errorf("conn at rollback error:%v", rollbackErr)
+			}
+		}
 		return nil, err
 	}
 
